@@ -191,7 +191,9 @@ class Hier:
             key.fields[("g", "id")] = Sym(key_id_term, "usize")
             kc = s.new_cell(key)
             self.ex.push_frame(s, fn, [self.href(False), Ref(kc, (), False, "&Key")], None, None)
-            its = [o for o in self.ex.run(s) if o.status == "returned"]
+            its0 = self.ex.run(s)
+            self.panics += [o for o in its0 if o.status in ("panic", "unreachable")]
+            its = [o for o in its0 if o.status == "returned"]
             for o in its:
                 o.status = "running"
                 ic = o.new_cell(o.result)
@@ -203,7 +205,10 @@ class Hier:
                     self.ex.push_frame(cur, nxtfn, [Ref(ic, (), True, "&mut PossibleRevIter")], None, None)
                     for o2 in self.ex.run(cur):
                         if o2.status != "returned":
-                            self.panics.append(o2)
+                            if o2.status not in ("infeasible", "unwind"):
+                                self.panics.append(o2)
+                            elif o2.status == "unwind":
+                                raise Unsupported("unwinding bound hit inside the possible-children iterator")
                             continue
                         r = o2.result
                         d = z3.simplify(self.ex.get_discr(o2, r).t)
@@ -267,6 +272,10 @@ def _scenario(crate, res, g, n, ops, noisy=None, rev=False):
         P.cover(ex, res, o, z3.BoolVal(len(live) < slots), "a removed slot exists")
     kid = z3.BitVec(fresh_name("query_key"), 64)
     outs = h.possible(kid, rev=rev)
+    if h.panics:
+        o = h.panics[0]
+        P.prove(ex, res, o, z3.BoolVal(False), "no panic while iterating the possible children (%s)" % o.note)
+        return ex, False
     res.paths += len(outs)
     for o, ids in outs:
         o.pc.append(z3.ULT(kid, BV64(NK)))
